@@ -438,7 +438,11 @@ def _check(prop, tier, seed, t0):
     consume(prop.cases(rng, tier, budget), "generated")
     extra = prop.extra_checks({"tier": tier, "seed": seed, "rng": rng, "driver": driver, "dist": dist})
     for f in extra:
-        failures.append(f)
+        if str(f.get("kind", "")).endswith("disagreement"):
+            # model and code differ on something, but the property was not seen to fail on the real code
+            disagreements.append({"case": f.get("case"), "real": f.get("required"), "model": f.get("observed"), "kind": f.get("kind")})
+        else:
+            failures.append(f)
     # ---- 5: decide
     if (broken or disagreements) and not failures:
         # failing-input search: the same generators with a 20x budget and a different stream
